@@ -30,7 +30,7 @@ func checkC01(c *km.Ctx) {
 
 	r.Rule("R-C01-1", "every user-certificate signing call reachable from the certgen route is dominated by Unsealed ∧ Authed ∧ Sufficient ∧ target==auth user ∧ POST, and its user argument is the authenticated user name", 2)
 	r.Rule("R-C01-2", "the sufficient-level flag starts false and every assignment of true is controlled by exactly: listed=='password'; or listed==K ∧ session has bit K (same constant name in proto and main); or session has the U2F bit", 3)
-	r.Rule("R-C01-3", "inside checkAuth every success return / credential bit is dominated by the verifier of its branch (cookie: verified, unexpired, level accepted; basic: limiter, password accepted; certificate: verified chain, helper success)", 6)
+	r.Rule("R-C01-3", "inside checkAuth every success return / credential bit is dominated by the verifier of its branch (cookie: verified, unexpired, level accepted; basic: limiter, password accepted; certificate: verified chain, helper success)", 5)
 	r.Rule("R-C01-4", "the certgen route is registered once on the service mux and its handler slices the target user off the route pattern's length", 1)
 
 	h := c.MustFunc("R-C01-1", "cmd/keymasterd", "(*RuntimeState).certGenHandler")
